@@ -100,7 +100,10 @@ def run_harness(args, race=False, timeout=1800, env=None, stdin=None, check=True
     binp = os.path.join(BUILD, 'roverif-race' if race else 'roverif')
     e = dict(os.environ)
     e.update(env or {})
-    p = subprocess.run([binp] + list(args), capture_output=True, text=True, timeout=timeout, env=e, input=stdin)
+    try:
+        p = subprocess.run([binp] + list(args), capture_output=True, text=True, timeout=timeout, env=e, input=stdin)
+    except subprocess.TimeoutExpired:
+        raise Infra('harness command %s exceeded its time limit of %d s' % (args[0], timeout))
     if check and p.returncode not in (0,):
         crash = library_crash(p)
         if crash is not None:
@@ -367,6 +370,13 @@ def main_wrapper(fn):
         rc = rep.finish()
     except Infra as e:
         print('INFRA-FAILURE: %s' % e)
+        sys.exit(2)
+    except SystemExit:
+        raise
+    except BaseException as e:      # anything unexpected (a time limit, a bug of the machinery) is an infrastructure failure: exit 2, never a verdict
+        import traceback
+        traceback.print_exc()
+        print('INFRA-FAILURE: %s: %s' % (type(e).__name__, str(e)[:300]))
         sys.exit(2)
     sys.exit(rc)
 
